@@ -8,12 +8,12 @@ META = dict(
          "service UUID lists, peripheral connection interval range, trailing empty ADs, static and runtime custom data, "
          "auto scan response) over a bounded output buffer with a Fault outcome; theorems for EVERY declaration (name of "
          "any length, any appearance option, UUID lists of any length, optional range, custom data) and EVERY buffer size: "
-         "no write outside [0,b), result r <= b, bytes past r untouched; for b <= 256 (no AD length byte can truncate) the "
+         "no write outside [0,b), result r <= b, bytes past r untouched; for b <= 259 (no AD length byte can truncate; tight) the "
          "payload is exactly tiled by AD structures, flags first when b >= 3, name complete (0x09) iff whole else a strict "
          "prefix marked shortened (0x08), UUID lists complete (0x03/0x07) iff all listed else a strict whole-UUID prefix marked "
          "incomplete (0x02/0x06), payload <= 31 for b <= 31; custom data is the copy of min(size,b) bytes and tiles when "
          "b >= size and the user's data tiles; the executable monitor accepts every model trace. Refutations: unfixed auto "
-         "scan response for b < 2 (fixed on branch fix/C14-scan-response-buffer), tiling for b > 256 with names >= 255 octets.",
+         "scan response for b < 2 (fixed on branch fix/C14-scan-response-buffer), tiling for b >= 260 with names >= 255 octets.",
     level_note="Trusted: Coq kernel, extraction (ExtrOcamlBasic), OCaml driver, C++ harness + ASan, runner, the declaration "
                "emitter in props/C14.py (writes the C++ server<> declaration and the model cfg from one table; it resolves the "
                "default service UUID lists). Model hand-written (coq/AdvData/AdvDataModel.v) and tied on every declaration of the "
@@ -220,7 +220,7 @@ class C14(Standard):
                     "declaration emitter props/C14.py (C++ server<> declaration and model cfg from one table; resolves default UUID lists)",
                     "gen/consts/advdata.py (AD type codes read from codes.hpp, pinned in Properties_C14.v)"]
     assumptions = ["server names contain no NUL octet (std::strlen)", "128-bit UUIDs are 16 octets (wf_cfg)",
-                   "tiling / kind clauses are stated for buffer sizes b <= 256 (an AD length octet cannot truncate); memory safety for every b",
+                   "tiling / kind clauses are stated for buffer sizes b <= 259 (an AD length octet cannot truncate); memory safety for every b",
                    "custom data: tiling only when b >= size and the user's data is itself a sequence of AD structures"]
 
     def all_decls(self, ctx):
@@ -257,7 +257,7 @@ class C14(Standard):
             cases += sweep_cases(d)
             if ctx.thorough:
                 w = cfg_words(d)
-                cases.append(Case("big", w, ["adv %d" % b for b in range(BMAX + 1, 257)] + ["scan %d" % b for b in (41, 100, 255, 256)]))
+                cases.append(Case("big", w, ["adv %d" % b for b in range(BMAX + 1, 260)] + ["scan %d" % b for b in (41, 100, 255, 256, 1000)]))
         return cases
 
     def search_extra(self, ctx):
